@@ -72,10 +72,13 @@ CHECKS["C05"] = {"text": "Proved on the model: simulate is total; no snapshot ot
     "note": COMMON_NOTE + " PARTIAL: liveness outside the stated class is searched. 'simulate always returns' for the implementation (runtime exceptions) can only be searched.",
     "technique": "Coq proof: induction over the trace shape + stuck-task invariant + liveness by a decreasing measure (least-rank unfinished task, greedy allocation maximality, resource-state invariant); oracle search on the feasible stream; correspondence on time/status/task states"}
 CHECKS["C06"] = {"text": "Proved on the model: (a) after __update no task with an open ready gate is NONE; (b) an automatic task without component that is READY after __update is WORKING after the "
-    "allocation phase of every step in which tasks may start; (d) after __update no WORKING task with exhausted work has an open finish gate, whatever the task list order (finishing fixpoint). "
-    "PARTIAL: clause (c) (no FREE eligible worker / worker-facility pair is left idle while a task could accept it) is not proved; it is searched by the oracle on the contention stream.",
-    "note": COMMON_NOTE + " PARTIAL: the maximality-of-allocation clause is searched, not proved.",
-    "technique": "Coq proof: completeness of check_ready / finishing fixpoint / closed form of check_working; oracle for the idle-worker clause; correspondence on states, allocations, placements"}
+    "allocation phase of every step in which tasks may start; (c) after __allocate of a working step no worker that was FREE and received nothing can still be added to any candidate task it is eligible for: "
+    "for tasks without facility can_add_resources(t, w) is False in the state reached, for tasks that need a facility can_add_resources(t, w, f) is False for every facility f that was FREE, has the skill "
+    "and belongs to the workplace at which the task's component sat when the task was served (greedy allocation in priority order; refusals are monotone while allocation lists only grow); (d) after __update no "
+    "WORKING task with exhausted work has an open finish gate, whatever the task list order (finishing fixpoint). The oracle searches clause (c) on the implementation with the final placement of the component "
+    "(contention / pairs / crossing streams).",
+    "note": COMMON_NOTE + " The pair clause is stated relative to the workplace of the component at service time (a later task of the same assembly may still move it within the step).",
+    "technique": "Coq proof: completeness of check_ready / finishing fixpoint / closed form of check_working / maximality of the greedy allocation (workers and worker-facility pairs); oracle for the idle-worker clause; correspondence on states, allocations, placements"}
 CHECKS["C10"] = {"text": "Proved on the model: at a project-wide absence step nothing is allocated, assigned or moved, no non-automatic task progresses, an automatic WORKING task loses exactly its unit rate iff "
     "the flag is set, nothing starts unless the flag is set; at every non-working row of the history all workers and facilities are logged ABSENCE and all cost entries at all levels are 0; a resource in "
     "state ABSENCE contributes 0 progress and costs 0, and the absence refresh of a working step sets ABSENCE exactly for the listed steps. DELETION clause proved for the task priority rules that do not read "
@@ -91,10 +94,10 @@ CHECKS["C11"] = {"text": "Proved on the model: sort_task_list (9 rules), sort_wo
     "sort_facility_list (all four rule values, MW keeps the order) and sort_workplace_list (FSS/SSP) each return a permutation of the input that is sorted by the documented key and "
     "stable on ties (generic theorems about the model's stable insertion sort for total preorders; lexicographic triples for resources, a missing HSV entry sorts last). The key functions and call "
     "sites are tied to the code by evaluating the model's sort functions (vm_compute) on the orders the real functions return for arbitrary lists with ties, missing entries and "
-    "equal-but-distinct ID strings, and by the simulation correspondence under all rules. PARTIAL: the no-inversion clause of allocation is searched by the oracle, not proved. "
+    "equal-but-distinct ID strings, and by the simulation correspondence under all rules. No inversion in allocation is proved: when a task is handed to the allocation block every earlier task in priority order is sated with respect to the free list -- no eligible worker of it (tasks without facility), no pair of an eligible worker and a FREE eligible facility of the workplace where its component was served (tasks with facility) can still be added; the oracle searches inversions on the implementation. "
     "CPython's sorted() is trusted to be a stable sort.",
-    "note": COMMON_NOTE + " PARTIAL: allocation no-inversion clause searched. Pure sort correspondence by generated cases files (no extraction).",
-    "technique": "Coq proof (stable insertion sort: permutation, sortedness, stability) + vm_compute correspondence on pure lists + oracle for allocation inversions"}
+    "note": COMMON_NOTE + " Pure sort correspondence by generated cases files (no extraction).",
+    "technique": "Coq proof (stable insertion sort: permutation, sortedness, stability) + vm_compute correspondence on pure lists + greedy-prefix theorem for allocation (workers and worker-facility pairs) + oracle for allocation inversions"}
 CHECKS["C09"] = {"text": "Proved on the model: a run with state and log initialisation is a function of configuration and options only -- simulate c o s = simulate c o s' for ALL incoming "
     "states, hence calling simulate again on a simulated project gives the identical result and no hidden state survives; the set of finished top-level components and the set of NONE tasks may "
     "be visited in any order with the same result (finishing and both PERT passes iterate ordered lists since the repairs). The parts that live in the Python runtime are covered by the harness: "
